@@ -182,7 +182,28 @@ def closure_truth(m, g, classify, limit=4000):
     out = []
     paths = [0]
 
-    def walk(b, asg, val, seen):
+    def value_of(rv, env):
+        """value of an rvalue: True / False / ('atom', name, neg) / '?' (env: values of the locals assigned on this path)"""
+        if rv[0] == "use":
+            op = rv[1]
+            if op[0] == "k":
+                if op[1].get("ty") == "bool" and "int" in op[1]:
+                    return bool(int(op[1]["int"]))
+                return "?"
+            if op[0] in ("c", "m") and not op[1][1] and op[1][0] in env:
+                return env[op[1][0]]
+            a = atom_of(pv.root(g, op))
+            return ("atom", a[0], a[1]) if a else "?"
+        if rv[0] == "un" and rv[1] == "Not":
+            v = value_of(("use", rv[2]), env)
+            if v in (True, False):
+                return not v
+            if isinstance(v, tuple):
+                return ("atom", v[1], not v[2])
+            return "?"
+        return "?"
+
+    def walk(b, asg, env, seen):
         if b in seen:
             raise RecursionError
         paths[0] += 1
@@ -190,59 +211,58 @@ def closure_truth(m, g, classify, limit=4000):
             raise RecursionError
         seen = seen | {b}
         blk = g.blocks[b]
+        env = dict(env)
         for s in blk["s"]:
-            if s[0] == "A" and s[1][0] == 0 and not s[1][1]:
-                rv = s[2]
-                if rv[0] == "use" and rv[1][0] == "k" and rv[1][1].get("ty") == "bool" and "int" in rv[1][1]:
-                    val = bool(int(rv[1][1]["int"]))
-                else:
-                    r = None
-                    if rv[0] == "use":
-                        r = pv.root(g, rv[1])
-                    elif rv[0] == "un" and rv[1] == "Not":
-                        r = ("not", pv.root(g, rv[2]))
-                    a = atom_of(r) if r is not None else None
-                    val = ("atom", a[0], a[1]) if a else "?"
+            if s[0] == "A" and not s[1][1]:
+                env[s[1][0]] = value_of(s[2], env)
         t = blk["t"]
         if t[0] == "call":
-            if t[3][0] == 0 and not t[3][1]:
+            if not t[3][1]:
                 a = atoms.get((t[1].get("q") or "", b))
-                val = ("atom", a[0], a[1]) if a else "?"
+                env[t[3][0]] = ("atom", a[0], a[1]) if a else "?"
             if t[4] is not None:
-                walk(t[4], asg, val, seen)
+                walk(t[4], asg, env, seen)
             return
         if t[0] == "ret":
-            v = val
+            v = env.get(0, "?")
             if isinstance(v, tuple) and v[1] in asg:
                 v = asg[v[1]] != v[2]
             out.append((dict(asg), v))
             return
         if t[0] == "switch":
-            a = atom_of(pv.root(g, t[1]))
-            cases = [(v, tb) for v, tb in t[2]] + [("otherwise", t[3])]
-            if a is None:
-                for _, tb in cases:
-                    walk(tb, asg, val, seen)
+            op = t[1]
+            v = None
+            if op[0] in ("c", "m") and not op[1][1] and op[1][0] in env:
+                v = env[op[1][0]]
+            if v is None or v == "?":
+                a = atom_of(pv.root(g, op))
+                v = ("atom", a[0], a[1]) if a else "?"
+            cases = [(lv, tb) for lv, tb in t[2]] + [("otherwise", t[3])]
+            two_way = all(lv == "0" for lv, _ in t[2])
+            if v in (True, False) and two_way:
+                tgt = t[3] if v else t[2][0][1]
+                walk(tgt, asg, env, seen)
                 return
-            name, neg = a
+            if not isinstance(v, tuple) or not two_way:
+                for _, tb in cases:
+                    walk(tb, asg, env, seen)
+                return
+            _, name, neg = v
             for lbl, tb in cases:
-                truth = (lbl != "0") != neg if lbl != "otherwise" else (not neg if all(v == "0" for v, _ in t[2]) else None)
-                if truth is None:
-                    walk(tb, asg, val, seen)
-                    continue
+                truth = (lbl != "0") != neg
                 if name in asg and asg[name] != truth:
                     continue
                 a2 = dict(asg)
                 a2[name] = truth
-                walk(tb, a2, val, seen)
+                walk(tb, a2, env, seen)
             return
         for sx in g.succ(b):
             if g.blocks[sx]["t"][0] in ("resume", "abort", "unreachable") and not g.blocks[sx]["s"]:
                 continue
-            walk(sx, asg, val, seen)
+            walk(sx, asg, env, seen)
 
     try:
-        walk(0, {}, "?", frozenset())
+        walk(0, {}, {}, frozenset())
     except RecursionError:
         return None
     return out
